@@ -381,3 +381,158 @@ theorem invite_spec (cfg : Cfg) (c : Nat) (nickname channel : Str) (msg : Messag
   · have hcond : (ch.modes.inviteOnly && !chum.operator) = false := by
       rcases h3 with h3 | h3 <;> simp [h3]
     simp [processInvite, hnick, h1, h2, hcond, Map.contains, h4, h5, OnlyReplied, srvLine, str]
+
+/-! ## 6. what later replies show; the admission granted by INVITE -/
+
+/-- after an accepted TOPIC the channel stored under `channel` carries the new topic (this is what
+    `topic_read_spec`, LIST and the JOIN burst read) -/
+theorem topic_stored (cfg : Cfg) (c : Nat) (channel : Str) (t : Str) (msg : Message) (x : Ctx)
+    (nick : Str) (hnick : (x.conn c).nick = some nick) (ch : Channel) (chum : ChanUserModes)
+    (h1 : Map.lookup channel x.w.channels = some ch) (h2 : Map.lookup nick ch.users = some chum)
+    (h3 : ch.modes.protectedTopic = false ∨ chum.isHalfOperator = true)
+    (h4 : ∀ n, Map.contains n ch.users = true → Map.contains n x.w.users = true) :
+    Map.lookup channel (processTopic cfg c channel (some t) msg x).w.channels =
+      some { ch with topic := if t = [] then none else some { topic := t, nick := nick } } := by
+  have := ((topic_spec cfg c channel t msg x nick hnick).1 ch chum h1 h2 h3 h4).1
+  rw [show (processTopic cfg c channel (some t) msg x).w = _ from this]
+  simp
+
+/-- LIST shows the stored topic text (empty if none) -/
+theorem list_shows_topic (cfg : Cfg) (client chn : Str) (ch : Channel) (x : Ctx) :
+    listLine cfg client chn ch x =
+      x.reply cfg (RplList322 client chn ch.users.length ((ch.topic.map (·.topic)).getD [])) := by
+  unfold listLine
+  cases ch.topic <;> rfl
+
+/-- An invitation opens an invite-only channel: with no key, no ban, no limit problem and the
+    nick not yet on the channel, the admission test of JOIN succeeds without error replies exactly
+    when the channel is not invite-only, or the nick holds an invitation, or an invite-exception
+    matches; otherwise the one reply is 473. -/
+theorem invitation_opens (ch : Channel) (chname : Str) (key : Option (Option Str))
+    (source nick client : Str) (invitedTo : KSet)
+    (hkey : ch.modes.key = none) (hban : ch.modes.banned source = false)
+    (hlim : ch.modes.clientLimit = none) (hnot : Map.contains nick ch.users = false) :
+    joinCheckExisting ch chname key source nick client invitedTo =
+      if !ch.modes.inviteOnly || KSet.mem chname invitedTo ||
+          ch.modes.inviteException.any (fun e => matchWildcard e source)
+      then (true, []) else (false, [ErrInviteOnlyChan473 client chname]) := by
+  unfold joinCheckExisting
+  simp only [hkey, hban, hlim, hnot]
+  generalize (!ch.modes.inviteOnly || KSet.mem chname invitedTo ||
+    ch.modes.inviteException.any (fun e => matchWildcard e source)) = b
+  cases b <;> simp
+
+/-- ... and the JOIN that uses it consumes it ("one admission") -/
+theorem join_consumes_invitation (nick chn : Str) (create : Bool) (w : World) (n : Str) :
+    Map.lookup n (joinApply nick [(true, create)] [chn] w).users =
+      (Map.lookup n w.users).map (fun u =>
+        if n = nick then { u with channels := KSet.insert chn u.channels
+                                  invitedTo := KSet.erase chn u.invitedTo } else u) := by
+  have hu : (joinApply nick [(true, create)] [chn] w).users =
+      Map.modify nick (fun u => { u with channels := KSet.insert chn u.channels
+                                         invitedTo := KSet.erase chn u.invitedTo }) w.users := by
+    simp only [joinApply, ↓reduceIte]
+    cases create
+    · simp only [Bool.false_eq_true, ↓reduceIte]
+      split <;> rfl
+    · rfl
+  rw [hu, Map.lookup_modify]
+  by_cases h : nick = n
+  · subst h; simp
+  · have h' : ¬ n = nick := fun e => h e.symm
+    cases Map.lookup n w.users <;> simp [h, h']
+
+/-! ## 7. examples on a concrete channel
+    `#c` = alice (founder, operator), hank (half-operator), vic (voice), pat (plain); `out` is a
+    registered user who is not a member.  Connection ids 1..5 in that order. -/
+
+namespace Ex
+open PrivEx
+
+-- the half-operator kicks the plain member: announced to the three remaining members and to pat
+example : let x := processKick cfg 2 (str "#c") [str "pat"] none x0
+    x.queued = [(1, str ":hank!~hank@h KICK #c pat :Kicked"), (2, str ":hank!~hank@h KICK #c pat :Kicked"),
+                (3, str ":hank!~hank@h KICK #c pat :Kicked"), (4, str ":hank!~hank@h KICK #c pat :Kicked")] ∧
+    x.direct = [] ∧
+    (chanAfter x).map (fun C => Map.keys C.users) = some [str "alice", str "hank", str "vic"] ∧
+    (Map.lookup (str "pat") x.w.users).map (·.channels) = some [] ∧
+    invCheck x.w = [] := by decide
+
+-- he can kick neither the founder nor himself (a half-operator), and `out` is no member
+example : let x := processKick cfg 2 (str "#c") [str "alice", str "hank", str "out"] (some (str "bye")) x0
+    x.queued = [] ∧ chanAfter x = some chan ∧
+    x.direct = [str ":irc.irc 972 hank :Can not do command", str ":irc.irc 972 hank :Can not do command",
+                str ":irc.irc 441 hank out #c :They aren't on that channel"] := by decide
+
+-- the founder kicks the half-operator and the voiced member, with a comment; ranks go too
+example : let x := processKick cfg 1 (str "#c") [str "hank", str "vic", str "hank"] (some (str "bye")) x0
+    (chanAfter x).map (fun C => (Map.keys C.users, C.modes.halfOperators, C.modes.voices)) =
+      some ([str "alice", str "pat"], [], []) ∧
+    x.queued = [(1, str ":alice!~alice@h KICK #c hank :bye"), (4, str ":alice!~alice@h KICK #c hank :bye"),
+                (2, str ":alice!~alice@h KICK #c hank :bye"),
+                (1, str ":alice!~alice@h KICK #c vic :bye"), (4, str ":alice!~alice@h KICK #c vic :bye"),
+                (3, str ":alice!~alice@h KICK #c vic :bye")] ∧
+    invCheck x.w = [] := by decide
+
+-- voice, plain member and outsider cannot kick
+example : let x := processKick cfg 3 (str "#c") [str "pat"] none x0
+    x.w.channels = x0.w.channels ∧ x.queued = [] ∧
+    x.direct = [str ":irc.irc 482 vic #c :You're not channel operator"] := by decide
+example : (processKick cfg 5 (str "#c") [str "pat"] none x0).direct =
+    [str ":irc.irc 442 out #c :You're not on that channel"] := by decide
+example : (processKick cfg 5 (str "#x") [str "pat"] none x0).direct =
+    [str ":irc.irc 403 out #x :No such channel"] := by decide
+
+def topicMsg : Message := { source := none, command := str "TOPIC", params := [str "#c", str "hello"] }
+def inviteMsg : Message := { source := none, command := str "INVITE", params := [str "out", str "#c"] }
+
+-- TOPIC on the (not +t) channel by the plain member: stored, announced to all four
+example : let x := processTopic cfg 4 (str "#c") (some (str "hello")) topicMsg x0
+    (chanAfter x).map (·.topic) = some (some { topic := str "hello", nick := str "pat" }) ∧
+    x.queued.map (·.1) = [1, 2, 3, 4] ∧
+    x.queued.all (·.2 == str ":pat!~pat@h TOPIC #c hello") = true ∧ x.direct = [] := by decide
+
+-- on a +t channel the plain member is refused, the half-operator is not
+def x0t : Ctx := { w := (processMode cfg 2 (str "#c") [(str "+t", [])] x0).w }
+example : let x := processTopic cfg 4 (str "#c") (some (str "hello")) topicMsg x0t
+    x.w.channels = x0t.w.channels ∧ x.queued = [] ∧
+    x.direct = [str ":irc.irc 482 pat #c :You're not channel operator"] := by decide
+example : let x := processTopic cfg 2 (str "#c") (some (str "hello")) topicMsg x0t
+    (chanAfter x).map (·.topic) = some (some { topic := str "hello", nick := str "hank" }) := by decide
+example : (processTopic cfg 5 (str "#c") (some (str "hello")) topicMsg x0).direct =
+    [str ":irc.irc 442 out #c :You're not on that channel"] := by decide
+-- the read form shows what was stored
+example : (processTopic cfg 3 (str "#c") none topicMsg
+      { w := (processTopic cfg 4 (str "#c") (some (str "hello")) topicMsg x0).w }).direct =
+    [str ":irc.irc 332 vic #c :hello", str ":irc.irc 333 vic #c pat 0"] := by decide
+example : (processTopic cfg 3 (str "#c") none topicMsg x0).direct =
+    [str ":irc.irc 331 vic #c :No topic is set"] := by decide
+
+-- INVITE by the plain member reaches exactly `out` and is recorded
+example : let x := processInvite cfg 4 (str "out") (str "#c") inviteMsg x0
+    x.queued = [(5, str ":pat!~pat@h INVITE out #c")] ∧
+    x.direct = [str ":irc.irc 341 pat out #c"] ∧
+    (Map.lookup (str "out") x.w.users).map (·.invitedTo) = some [str "#c"] ∧
+    x.w.channels = x0.w.channels := by decide
+-- refused: outsider, already on channel, unknown nick, invite-only without operator flag
+example : (processInvite cfg 5 (str "pat") (str "#c") inviteMsg x0).direct =
+    [str ":irc.irc 442 out #c :You're not on that channel"] := by decide
+example : (processInvite cfg 4 (str "vic") (str "#c") inviteMsg x0).direct =
+    [str ":irc.irc 443 pat vic #c :is already on channel"] := by decide
+example : (processInvite cfg 4 (str "nobody") (str "#c") inviteMsg x0).direct =
+    [str ":irc.irc 401 pat nobody :No such nick/channel"] := by decide
+def x0i : Ctx := { w := (processMode cfg 2 (str "#c") [(str "+i", [])] x0).w }
+example : let x := processInvite cfg 2 (str "out") (str "#c") inviteMsg x0i
+    x.queued = [] ∧ x.w.users = x0i.w.users ∧
+    x.direct = [str ":irc.irc 482 hank #c :You're not channel operator"] := by decide
+example : (processInvite cfg 1 (str "out") (str "#c") inviteMsg x0i).queued =
+    [(5, str ":alice!~alice@h INVITE out #c")] := by decide
+
+-- the hypotheses of the theorems are satisfiable on this world
+example : (x0.conn 2).nick = some (str "hank") ∧ Map.lookup (str "#c") x0.w.channels = some chan ∧
+    Map.lookup (str "hank") chan.users = some { halfOper := true } ∧
+    (∀ n ∈ Map.keys chan.users, Map.contains n x0.w.users = true) := by decide
+
+end Ex
+
+end Irc.C09
